@@ -16,7 +16,8 @@ RULE = ("one position (generator of C03) encoded as a single airborne (TC 9-18, 
         "from the same box; oracle: position_with_ref / airborne_position_with_ref / surface_position_with_ref within one "
         "quantisation step of the encoded position (lon mod 360), and equal (1e-9) for both references. non-trivial = |f| or |g| >= 0.49, "
         "reference across the equator / lon 0 / antimeridian from the target, or NL-i <= 1"
-        ' Also: offsets of +-(0.5 - 5e-10) zone, whole-degree references passed as Python ints, numpy float64 / float32 / int8 / int16 references, hex letter case, and the identical string decoded first against a reference three zones away (history on the same string), positions whose CPR fields are round binary numbers with corner altitude / movement fields, the decoder first handed damaged forms of the squitter, other message types of the same aircraft decoded first.')
+        ' Also: offsets of +-(0.5 - 5e-10) zone, whole-degree references passed as Python ints, numpy float64 / float32 / int8 / int16 references, hex letter case, and the identical string decoded first against a reference three zones away (history on the same string), positions whose CPR fields are round binary numbers with corner altitude / movement fields, the decoder first handed damaged forms of the squitter, other message types of the same aircraft decoded first.'
+        ' Also: references exactly on the antimeridian and the poles, T bit drawn.')
 ASSUMPTIONS = ["reference strictly inside the half-zone box (|f|,|g| <= 0.5 - 5e-10)", "reference encoder ref/cpr.py follows DO-260B A.1.7.3",
                "cases whose encoded latitude lies within 1e-9 deg of an NL transition are counted, not judged"]
 
